@@ -327,10 +327,12 @@ def impl_model_stage(prefixes, expect_fail=(), orig_mutants=()):
     return stage
 
 
-def plans_for(tier, dfs_cap_quick=1200, dfs_cap_thorough=20000, rnd_quick=150, rnd_thorough=3000):
+def plans_for(tier, dfs_cap_quick=700, dfs_cap_thorough=20000, rnd_quick=150, rnd_thorough=3000):
+    # bound 1 first: every schedule in which one thread is frozen once, at any op, while the others run on
+    # (linear in the run length, normally complete), then the deeper capped enumeration
     if tier == "quick":
-        return [("dfs", dfs_cap_quick, 2), ("random", rnd_quick, 0), ("pct", rnd_quick, 0)]
-    return [("dfs", dfs_cap_thorough, 3), ("random", rnd_thorough, 0), ("pct", rnd_thorough, 0)]
+        return [("dfs", 1500, 1), ("dfs", dfs_cap_quick, 2), ("random", rnd_quick, 0), ("pct", rnd_quick, 0)]
+    return [("dfs", 100000, 1), ("dfs", dfs_cap_thorough, 3), ("random", rnd_thorough, 0), ("pct", rnd_thorough, 0)]
 
 
 def caps_for(tier):
